@@ -48,6 +48,10 @@ WALK_LIMIT = 64            # a sound list holds <= L (+ a few) cells; a walk tha
 STEP_CPU_S = 2.0           # CPU budget (user time of the worker) for one transition incl. its read battery (~1 ms)
 PICKLE_PROTOCOLS = tuple(range(pickle.HIGHEST_PROTOCOL + 1))
 COPY_OPS = ('copy', 'copy.copy', 'copy.deepcopy', 'pickle')
+# update_extend(E, **kw) is not among the operation shapes the statement lists, and the unchanged tree drops kw there
+# (proposed fix: fixes/C01-6-update-extend-kwargs.patch).  Once that is repaired, True adds the shape to the kwargs
+# search (the keywords are appended after the items of E) and to the keyword-names part.
+EXPLORE_UPDATE_EXTEND_KWARGS = True
 
 
 class Budget(BaseException):
@@ -209,7 +213,7 @@ def model_apply(P, op):
             # OMD (all pairs): both are accepted, all reads must then agree with the one chosen
             vis = m_visible(P)
             return ok(None, P + [(k, vis[k]) for k in m_keys(P)]) + ok(None, P + P)
-        return ok(None, P + [tuple(p) for p in op[2]])
+        return ok(None, P + [tuple(p) for p in op[2]] + [tuple(p) for p in (op[3] if len(op) > 3 else ())])
     if name == 'setdefault':
         k = op[1]
         if m_has(P, k):
@@ -324,6 +328,15 @@ def impl_apply(d, op, cls):
             kw = dict(op[3])
             if op[1] == 'none':
                 return ('ok', None), cls(**kw)
+            if op[1].startswith('fromkeys'):
+                ks = [k for k, _ in op[2]]
+                assert not kw and len(set(ks)) == len(ks) and len({v for _, v in op[2]}) <= 1
+                if not ks:
+                    return ('ok', None), cls.fromkeys(ks, 'D')
+                if op[1] == 'fromkeys-nodefault':
+                    assert op[2][0][1] is None
+                    return ('ok', None), cls.fromkeys(ks)
+                return ('ok', None), cls.fromkeys(iter(ks) if op[1] == 'fromkeys-iterator' else ks, op[2][0][1])
             return ('ok', None), cls(operand(op[1], op[2], cls), **kw)
         if name == 'add':
             return ('ok', d.add(op[1], op[2])), d
@@ -339,7 +352,7 @@ def impl_apply(d, op, cls):
             kw = dict(op[3]) if len(op) > 3 else {}
             return ('ok', d.update(operand(op[1], op[2], cls, d), **kw)), d
         if name == 'update_extend':
-            return ('ok', d.update_extend(operand(op[1], op[2], cls, d))), d
+            return ('ok', d.update_extend(operand(op[1], op[2], cls, d), **(dict(op[3]) if len(op) > 3 else {}))), d
         if name == 'ior':
             d2 = d
             d2 |= operand(op[1], op[2], cls, d)
@@ -448,7 +461,7 @@ def opsig(op):
     if name == 'update':
         return 'update(%s%s)' % (op[1], ',kwargs' if len(op) > 3 and op[3] else '')
     if name in ('update_extend', 'ior'):
-        return '%s(%s)' % (name, op[1])
+        return '%s(%s%s)' % (name, op[1], ',kwargs' if len(op) > 3 and op[3] else '')
     if name == 'setdefault':
         return 'setdefault' if len(op) == 2 else 'setdefault(default)'
     if name in ('pop', 'popall'):
@@ -514,6 +527,13 @@ class Spec:
                ('new', 'proxy', O['P1'], ()), ('new', 'keysobj', O['P4'], ()), ('new', 'omd', O['P3'], ())]
         if self.clsname != 'dictutils.OrderedMultiDict':
             out.append(('new', 'same', O['P2'], ()))
+        # the alternate constructor every dict has; distinct keys only (the statement does not say what repeated
+        # keys give), every key paired with the one default
+        kf, kl, vf, vl = self.keys[0], self.keys[-1], self.values[0], self.values[1]
+        out += [('new', 'fromkeys', ((kf, vl), (kl, vl)), ()), ('new', 'fromkeys', (), ()),
+                ('new', 'fromkeys-iterator', ((kl, vf),), ())]
+        if None in self.domain:
+            out.append(('new', 'fromkeys-nodefault', ((kl, None), (kf, None)), ()))
         if self.kwargs_ops:
             k0, k1 = self.keys[0], self.keys[1]
             v0, v1 = self.values[0], self.values[1]
@@ -573,6 +593,9 @@ class Spec:
                   ('update', 'dict', O['P4'], ((k1, V[0]),)),
                   ('update', 'pairs', O['P2'], ((k1, V[0]),)),          # kwarg replaces the pairs just added
                   ('update', 'omd', O['P3'], ((k1, V[1]), (k0, V[0])))]
+            if EXPLORE_UPDATE_EXTEND_KWARGS:
+                m += [('update_extend', 'dict', (), ((k0, V[1]),)),
+                      ('update_extend', 'pairs', O['P2'], ((k1, V[0]), (k0, V[0])))]
         for k in K:
             m.append(('setdefault', k))
             for v in V:
@@ -1252,6 +1275,129 @@ def run_cyclic(ctx):
 
 
 # ----------------------------------------------------------------------------------------------------
+# Directed part (exhaustive over its own small space): keyword arguments under every name.
+# OMD(**kw), OMD(E, **kw) and update(E, **kw) take their keys from the *names* of the keywords, so the key alphabet of
+# these forms is "every identifier".  The searches above use the names a/b; here every name of a wider class is the
+# key: names that argument lists of mapping-like APIs conventionally use, plus every parameter name that any method of
+# the class under check declares (found by introspection of the tree under check, so that a positional parameter
+# that shadows a keyword is met under whatever name it carries).  Not explored: the names the public signatures of the
+# unchanged tree bind themselves - self / cls in a constructor call, self / E in update(E, **F) - where a keyword of
+# that name is the parameter and not a pair.
+
+KW_TAG = 'keyword-names'
+KW_CONVENTIONAL = ('iterable', 'iterator', 'it', 'items', 'mapping', 'pairs', 'seq', 'sequence', 'args', 'kwargs', 'kw',
+                   'a', 'E', 'F', 'other', 'others', 'default', 'multi', 'key', 'keys', 'value', 'values', 'k', 'v',
+                   'dict', 'd', 'm', 'src', 'source', 'data', 'obj', 'arg', 'init', 'initial', 'name', 'state',
+                   'root', '_map', 'dict_or_iterable', 'self_', 'x', 'None_', '_')
+KW_BOUND = {'new': ('self', 'cls'), 'update': ('self', 'E'), 'update_extend': ('self', 'E')}
+KW_VALUE_SETS = ((0, 1), (None, (('x', 1),)))       # atoms; None and a value that is itself an iterable of pairs
+
+
+def declared_parameter_names(cls):
+    out = set()
+    try:
+        for c in cls.__mro__:
+            if c.__module__ == 'builtins':
+                continue
+            for f in list(vars(c).values()):
+                f = getattr(f, '__func__', None) or getattr(f, 'fget', None) or f
+                code = getattr(f, '__code__', None)
+                if code is None:
+                    continue
+                n = code.co_argcount + code.co_kwonlyargcount + bool(code.co_flags & 4) + bool(code.co_flags & 8)
+                out.update(code.co_varnames[:n])
+    except Exception:
+        pass
+    return out
+
+
+def kw_names(clsnames):
+    import keyword
+    names = list(KW_CONVENTIONAL)
+    for cn in clsnames:
+        names += sorted(declared_parameter_names(resolve(cn)))
+    out = []
+    for n in names:
+        if (n not in out and type(n) is str and n.isidentifier() and not keyword.iskeyword(n)
+                and n not in KW_BOUND['new']):
+            out.append(n)
+    return out
+
+
+def kw_specs(clsname, name, quick):
+    other = 'a' if name != 'a' else 'b'
+    out = [Spec(clsname, (name, other), KW_VALUE_SETS[0], KW_VALUE_SETS[0] + (None,), 8, True)]
+    if clsname == 'dictutils.OrderedMultiDict' or not quick:
+        out.append(Spec(clsname, (other, name), KW_VALUE_SETS[0], KW_VALUE_SETS[0] + (None,), 8, True))
+        out.append(Spec(clsname, (name, other), KW_VALUE_SETS[1], KW_VALUE_SETS[1], 8, True))
+    return out
+
+
+def kw_free(op):
+    """No keyword of the operation is a name the operation's public signature binds itself."""
+    kw = op[3] if len(op) > 3 else ()
+    return not any(k in KW_BOUND[op[0]] for k, _ in kw)
+
+
+def kw_one(spec):
+    """Every constructor shape from nothing, then every update(E, **kw) shape in every distinct state so reached;
+    state oracle and read battery after each.  -> (violations, steps, steps with keywords)"""
+    V, n, nkw = [], 0, 0
+    ups = [op for op in spec.menu if op[0] in ('update', 'update_extend') and len(op) > 3 and op[3]]
+    seen = set()
+    for op in spec.news:
+        if not kw_free(op) or not spec.enabled([], op):
+            continue
+        _, key, _, v = spec.guarded_step((), op, battery=True)
+        n += 1
+        nkw += bool(op[3])
+        V += v
+        if key is None or key in seen:
+            continue
+        seen.add(key)
+        P = spec.build((op,))[1]
+        for up in ups:
+            if not kw_free(up) or not spec.enabled(P, up):
+                continue
+            V += spec.guarded_step((op,), up, battery=True)[3]
+            n += 1
+            nkw += 1
+    return V, n, nkw
+
+
+def run_kwnames(ctx):
+    classes = ('dictutils.OrderedMultiDict', 'urlutils.QueryParamDict')
+    names = kw_names(classes)
+    jobs = [(cn, nm) for nm in names for cn in classes]
+
+    def shard(js):
+        signal.signal(signal.SIGVTALRM, _on_timer)
+        V, n, nkw = [], 0, 0
+        for cn, nm in js:
+            for spec in kw_specs(cn, nm, ctx.quick()):
+                v, k, kk = kw_one(spec)
+                V += [x[:5] + (tuple(x[5]) + (KW_TAG,),) for x in v]
+                n += k
+                nkw += kk
+        return V, n, nkw
+    total = totkw = 0
+    for V, n, nkw in core.pmap(shard, [jobs[i::16] for i in range(16)]):
+        total += n
+        totkw += nkw
+        for v in V:
+            ctx.violation(*v)
+    ctx.note('keyword arguments under every name: %d names, %d steps (%d with keywords)' % (len(names), total, totkw))
+    return {'rule': 'for every name: the name and one other key, values %r; every constructor shape (positional '
+                    'shapes, ** alone, positional + **), then every update(E, **kw) shape in every distinct state so '
+                    'reached; state oracle and full read battery after each step; names = conventional argument '
+                    'names + every parameter name declared by a method of the class under check, minus %r'
+                    % (list(KW_VALUE_SETS), KW_BOUND),
+            'names': names, 'steps': total, 'steps_with_keywords': totkw, 'exhaustive': True,
+            'sample': {'config': kw_specs(classes[0], names[0], True)[0].config,
+                       'history': [['new', 'none', [], [[names[0], 1]]]]}}
+
+
+# ----------------------------------------------------------------------------------------------------
 
 def configs(tier):
     L = 4 if tier == 'quick' else 5
@@ -1322,12 +1468,17 @@ def _run(ctx, parts, scratch):
     cov['menu_ops_never_succeeding'] = [o for o in menu_ops if o not in seen_ok]
     cov['op_shapes_stopped_after_exhausting_cpu_budget'] = sorted(os.listdir(scratch))
     cov['values_referring_back_to_the_mapping'] = run_cyclic(ctx)
+    cov['keyword_arguments_under_every_name'] = run_kwnames(ctx)
     ctx.assumptions += [
         'keys/values are ints, short strings and None with well-behaved __eq__/__hash__',
         'popitem(): removing the last pair, or some present key with all its pairs, are both accepted (DESIGN 5.1)',
         'update_extend(self): extending by the visible items or by all pairs are both accepted',
         'update_extend(E, **kwargs), update(self, **kwargs) and the non in-place | operator are not among the operation '
         'shapes the statement lists: not explored',
+        'keyword forms (OMD(**kw), OMD(E, **kw), update(E, **kw)): a keyword named like a parameter that the public '
+        'signature of the unchanged tree binds itself (self / cls in a constructor call, self / E in update) is that '
+        'parameter, not a pair: not explored; every other identifier is a key',
+        'fromkeys(keys[, default]) is explored with distinct keys only',
         'an operation is enabled only when every successor the statement allows holds <= L pairs '
         '(and, in the int-key searches, only values of the domain: setdefault(k) without default needs k present)',
         'operands that are OMDs are built with add() on the class under check',
